@@ -1,9 +1,9 @@
 INIT Init
 NEXT Next
 CONSTANTS
-  MaxDepth = 2
+  MaxDepth = 1
   NB = 64
-  Operands <- OpsSmall
+  Operands <- OpsFull
   Universe <- Univ
 INVARIANT ParseFull
 INVARIANT ParseMin
